@@ -1,0 +1,26 @@
+//! Verification hooks, compiled only with `--cfg apollo_rs_verif`.
+//!
+//! Thin public wrappers around crate-private decision functions so that an external harness can
+//! compare them with a formal model. Nothing here is used by the library itself.
+
+use crate::ast;
+use crate::Schema;
+
+pub fn is_variable_usage_allowed(
+    variable_def: &ast::VariableDefinition,
+    variable_usage: &ast::InputValueDefinition,
+) -> bool {
+    crate::validation::variable::verif_is_variable_usage_allowed(variable_def, variable_usage)
+}
+
+pub fn is_valid_implementation_field_type(
+    schema: &Schema,
+    interface_field_type: &ast::Type,
+    impl_field_type: &ast::Type,
+) -> bool {
+    crate::validation::interface::is_valid_implementation_field_type(
+        schema,
+        interface_field_type,
+        impl_field_type,
+    )
+}
